@@ -1,4 +1,5 @@
 """C09 — empirical quantiles: correspondence of csep.utils.stats with Model/Ecdf.lean + direct oracle."""
+import bisect
 import itertools
 from fractions import Fraction
 
@@ -12,25 +13,41 @@ LEVEL_TEXT = ("Proof: ge/le empirical probabilities equal #{x_i>=v}/n and #{x_i<
               "large samples with heavy ties, and by dtype classes (every integer / float sample dtype x every way of passing the "
               "query; 64-bit integers beyond 2**53 compared as exact integers).")
 LEVEL_NOTE = ("numpy.sort / numpy.searchsorted are modelled by their specification (sorted permutation, insertion point); the "
-              "float returned by the library is compared to Python's k/n exactly. numpy's type promotion (int64 x uint64 -> "
-              "float64, weak Python scalars rounded to a float32 sample's dtype) is not modelled: the model compares exact "
-              "rationals; two input sub-classes where promotion makes the unchanged library miss the property are listed in "
-              "known findings D35/D36 (reported with their signature).")
+              "float returned by the library is compared to Python's k/n exactly and to the Soft64 division of the model. "
+              "numpy's type promotion is modelled by a second layer (Model/EcdfNumpy.lean: conversion applied by the "
+              "short-circuit comparisons, conversion applied by searchsorted): with one common dtype it is proved equal to "
+              "the exact model, with a lossy search domain it is proved to return the exact count plus the collisions; the "
+              "two input sub-classes where promotion makes the unchanged library miss the property are known findings "
+              "D35/D36 (reported with their signature; kernel-checked witnesses on the faithful model; on every run the "
+              "faithful model is compared with the library's actual outputs on those classes, see extra.np_layer).")
 DESIGN_REF = "DESIGN.md §4 C09"
 
 THEOREMS = ["Ecdf.ge_ecdf_eq", "Ecdf.le_ecdf_eq", "Ecdf.ecdf_sum", "Ecdf.ge_anti", "Ecdf.le_mono",
             "Ecdf.empty_none", "Ecdf.quantiles_eq", "Ecdf.cnt_le_length", "Ecdf.binned_ecdf_eq",
-            "Ecdf.quantiles_sum_ge", "Ecdf.above_all", "Ecdf.below_all", "Ecdf.perm_invariant", "Ecdf.int_data_exact"]
+            "Ecdf.quantiles_sum_ge", "Ecdf.above_all", "Ecdf.below_all", "Ecdf.perm_invariant", "Ecdf.int_data_exact",
+            # Properties/C09_Numpy.lean: promotion-aware layer, returned floats, sup_dist_na, min/max_or_none
+            "Ecdf.np_exact_common_dtype", "Ecdf.np_ge_lossy_search", "Ecdf.np_le_lossy_search", "Ecdf.np_out_of_range_exact",
+            "Ecdf.np_injective_exact", "Ecdf.fl64_is_mono", "Ecdf.finding_D35_le", "Ecdf.finding_D35_ge",
+            "Ecdf.finding_D36_le_wraps", "Ecdf.finding_D36_ge_indexError", "Ecdf.prob_float_mono", "Ecdf.prob_float_bounds",
+            "Ecdf.ge_float_anti", "Ecdf.le_float_mono", "Ecdf.min_or_none_spec", "Ecdf.max_or_none_spec",
+            "Ecdf.extremes_have_probability_one", "Ecdf.sup_dist_na_spec"]
 TRUSTED = ["Lean 4.33 kernel", "axioms: propext, Classical.choice, Quot.sound at most",
            "numpy.sort returns the sorted permutation and numpy.searchsorted the left/right insertion point "
            "(modelled as List.mergeSort / takeWhile-length)",
+           "numpy's promotion rules as encoded in harness/c09.py:_domains (NEP 50 weak scalars, exact mixed-sign integer "
+           "comparison loops, result_type for searchsorted) - validated on every run by comparing the promotion-aware model "
+           "with the library's actual outputs (coverage.np_layer)",
            "harness/c09.py generators and comparison; driver parsing (Proto.lean)"]
 RULE = ("exhaustive: every multiset of size 1..7 over two 6-letter alphabets (1..6 and -3..2) x 13 query points (on, between, below, "
         "above); random: large samples with heavy ties, int and float dtypes, list and ndarray inputs; dtype classes: every "
         "sample dtype uint8..uint64, int8..int64, float16/32/64 x query kinds (Python int / float, numpy scalar of every integer "
         "and float dtype that holds the value) over small alphabets, the dtype's extreme values, and 64-bit integers beyond "
         "+-2**53 that differ by less than the float64 spacing (compared as exact Python integers); binned_ecdf over the same "
-        "dtypes; a case is non-trivial when the sample has a tie or the query equals a sample value; distinct by (sample, query)")
+        "dtypes; queries also as 0-d arrays; samples also behind strided / negative-stride / read-only / byte-swapped "
+        "layouts; +-inf queries; histories on one array object changed in place between lookups (refill, single entry, "
+        "*= 2, in-place sort, progressive fill); sup_dist_na / sup_dist on two samples with ties within and between them; "
+        "min_or_none / max_or_none over all dtypes incl. empty input; "
+        "a case is non-trivial when the sample has a tie or the query equals a sample value; distinct by (sample, query)")
 
 # Sub-classes of the dtype generators on which the UNCHANGED library violates the property: known findings D35 / D36 of
 # /verif/known_findings.json (signature "ecdf:<name>"). Cases of a listed sub-class ARE evaluated: a wrong answer or an
@@ -51,6 +68,8 @@ KNOWN_FINDING_CLASSES = [
 
 def _exact(t):
     """exact value of a sample element / query: Python int for every integer type, Fraction of the float otherwise"""
+    if isinstance(t, numpy.ndarray):      # 0-d array holding the query
+        t = t[()]
     if isinstance(t, (bool, numpy.bool_)):
         return int(t)
     if isinstance(t, (int, numpy.integer)):
@@ -81,7 +100,7 @@ def awaiting_class(arr, v):
     qd = _qdtype(v)
     if qd.kind not in "iuf" or arr.dtype.kind not in "iuf":
         return None
-    weak = not isinstance(v, numpy.generic)
+    weak = not isinstance(v, (numpy.generic, numpy.ndarray))     # Python scalars are "weak" (NEP 50); 0-d arrays are not
     if arr.dtype.kind == "f" and arr.dtype.itemsize < 8 and weak and not _representable(arr.dtype, Fraction(_exact(v))):
         # only where the rounding of the weak scalar changes one of the two short-circuit decisions
         with numpy.errstate(all="ignore"):
@@ -99,6 +118,53 @@ def awaiting_class(arr, v):
     return None
 
 
+_DOM = {"float16": "h", "float32": "s", "float64": "d"}
+
+
+def _domains(arr, v):
+    """(sc, se) for the promotion-aware layer of the model (Model/EcdfNumpy.lean): the comparison domain of the two
+    short-circuits (a sample ELEMENT against the query) and of numpy.searchsorted (sorted sample and query converted to
+    their common dtype); 'x' exact, 'h'/'s'/'d' binary16/32/64.  None when a dtype is outside the modelled ones."""
+    E = arr.dtype
+    weak = not isinstance(v, (numpy.generic, numpy.ndarray))
+    try:
+        if weak:
+            if isinstance(v, int):
+                sc = "x" if E.kind in "iu" else _DOM[E.name]       # weak int: exact among integers, else cast to E
+            else:
+                sc = "d" if E.kind in "iu" else _DOM[E.name]       # weak float: integer element -> float64, else cast to E
+        else:
+            Q = v.dtype
+            sc = "x" if (E.kind in "iu" and Q.kind in "iu") else _DOM[numpy.result_type(E, Q).name]
+        R = numpy.result_type(E, _qdtype(v))
+        se = "x" if R.kind in "iu" else _DOM[R.name]
+    except KeyError:
+        return None
+    return sc, se
+
+
+def _relayout(arr, how):
+    """the same values behind another memory layout (the property is about values, not layout)"""
+    n = len(arr)
+    if how == "strided":
+        big = numpy.empty(2 * n, dtype=arr.dtype)
+        big[::2] = arr
+        big[1::2] = arr[::-1]
+        return big[::2]
+    if how == "negstride":
+        return arr[::-1].copy()[::-1]
+    if how == "readonly":
+        a = arr.copy()
+        a.flags.writeable = False
+        return a
+    if how == "byteswapped":
+        return arr.astype(arr.dtype.newbyteorder())
+    return arr
+
+
+LAYOUTS = ["strided", "negstride", "readonly", "byteswapped"]
+
+
 def _impl(arg, v):
     from csep.utils import stats
     ge = stats.greater_equal_ecdf(arg, v)
@@ -111,12 +177,16 @@ def _impl(arg, v):
 
 
 def _vtype(v):
+    if isinstance(v, numpy.ndarray):
+        return v.dtype.name + "@0d"
     if isinstance(v, numpy.generic):
         return v.dtype.name
     return "int" if isinstance(v, int) else "float"
 
 
 def _mk_query(vtype, text):
+    if vtype.endswith("@0d"):
+        return numpy.asarray(_mk_query(vtype[:-3], text))
     val = Fraction(text)
     if vtype == "int":
         return int(val)
@@ -126,15 +196,20 @@ def _mk_query(vtype, text):
     return dt.type(int(val)) if dt.kind in "iu" else dt.type(float(val))
 
 
-def _check_case(run, drv, pending, x, v, as_list, tag):
-    """x: list of Python numbers or a numpy array (any integer / float dtype); v: Python or numpy scalar"""
+def _check_case(run, drv, pending, x, v, as_list, tag, layout=None):
+    """x: list of Python numbers or a numpy array (any integer / float dtype); v: Python or numpy scalar or 0-d array"""
     arr = x if isinstance(x, numpy.ndarray) else None
+    if arr is not None and layout:
+        arr = x = _relayout(arr, layout)
     n = len(x)
     fx = [_exact(t) for t in (arr.tolist() if arr is not None and arr.dtype.kind in "iu" else x)]
     fv = _exact(v)
     case = dict(x=[str(t) for t in fx] if n <= 12 else f"<{n} values>", v=str(fv), as_list=as_list, tag=tag,
                 xdtype=arr.dtype.name if arr is not None else ("int" if all(isinstance(t, int) for t in x) else "float"),
                 vtype=_vtype(v))
+    if layout:
+        case["layout"] = layout
+        run.count("layout:" + layout)
     full = lambda: dict(case, x=[str(t) for t in fx])
     aw = awaiting_class(arr if arr is not None else numpy.asarray(x), v)
     if aw is not None and aw in AWAITING_DECISION:
@@ -144,10 +219,28 @@ def _check_case(run, drv, pending, x, v, as_list, tag):
     if sig:
         run.count("known-class:" + aw)
     arg = (list(arr) if as_list else arr) if arr is not None else (list(x) if as_list else numpy.asarray(x))
+    # promotion-aware layer of the model: asked for the dtype / random classes (the exhaustive lists are float64 / int64
+    # with a same-kind query: both domains exact)
+    doms = _domains(arr if arr is not None else numpy.asarray(x), v) if not tag.startswith("exhaustive") else None
+    if n > 64 and (n + len(pending)) % 4:
+        doms = None       # large samples: one in four (each driver request re-reads the whole sample)
+
+    txt = []
+
+    def xs_txt():
+        if not txt:
+            txt.append(flist(Fraction(t) for t in fx) + " " + frac(Fraction(fv)))
+        return txt[0]
+
+    def ask_np(observed):
+        if doms is not None:
+            k = drv.ask(f"ecdf_np {doms[0]} {doms[1]} {xs_txt()}")
+            pending.append(("np", case, k, observed, aw in KNOWN_FINDING_CLASSES))
     try:
         ge, le, q, gec, lec = _impl(arg, v)
     except Exception as e:  # the property promises a value for every non-empty sample
         run.oracle_failure(full(), f"exception {type(e).__name__}: {e}", signature=sig)
+        ask_np(("exc", type(e).__name__))
         return
     kge = sum(1 for t in fx if t >= fv)
     kle = sum(1 for t in fx if t <= fv)
@@ -162,18 +255,60 @@ def _check_case(run, drv, pending, x, v, as_list, tag):
         run.oracle_failure(full(), f"ge={ge!r} le={le!r} quantiles={q!r} with cdf=: {gec!r} {lec!r}; "
                                    f"expected {kge}/{n} {kle}/{n}", signature=sig)
         if sig:
+            ask_np(("ok", float(ge), float(le)))
             return   # known finding: the exact model would only repeat the disagreement
-    i = drv.ask(f"ge_ecdf {flist(Fraction(t) for t in fx)} {frac(Fraction(fv))}")
-    j = drv.ask(f"le_ecdf {flist(Fraction(t) for t in fx)} {frac(Fraction(fv))}")
-    pending.append((case, i, j, ge, le, n))
+    ask_np(("ok", float(ge), float(le)))
+    i = drv.ask(f"ge_ecdf {xs_txt()}")
+    j = drv.ask(f"le_ecdf {xs_txt()}")
+    pending.append(("ex", case, i, j, ge, le, n))
+    # the floats themselves against the Soft64 division of the model (sampled: one binary64 division per probability)
+    if (n <= 64 and not tag.startswith("exhaustive") and len(pending) % 3 == 0) or len(pending) % 16 == 0:
+        k = drv.ask(f"ecdf_float {xs_txt()}")
+        pending.append(("fl", case, k, float(ge), float(le)))
 
 
 def _flush(run, drv, pending):
     out = drv.run()
-    for case, i, j, ge, le, n in pending:
-        def val(s):
-            k, m = s.split(":")
-            return int(k) / int(m)
+    np_layer = run.extra.setdefault("np_layer", dict(
+        note="promotion-aware model (Model/EcdfNumpy.lean) against the library's ACTUAL outputs; statistic, not a verdict "
+             "(the verdict is the exact oracle / exact model; D35/D36 classes are known findings)",
+        known_class_cases=0, known_class_predicted=0, other_cases=0, other_predicted=0, disagreements=[]))
+    fl = run.extra.setdefault("returned_floats", dict(cases=0, equal_to_soft64_division=0))
+
+    def val(s):
+        k, m = s.split(":")
+        return int(k) / int(m)
+    for item in pending:
+        if item[0] == "np":
+            _, case, k, observed, known = item
+            parts = out[k].split(" ")
+            if len(parts) != 2:
+                pred = ("bad", out[k])
+            elif "IndexError" in parts:
+                pred = ("exc", "IndexError")
+            else:
+                try:
+                    pred = ("ok", val(parts[0]), val(parts[1]))
+                except Exception:
+                    pred = ("bad", out[k])
+            key = "known_class" if known else "other"
+            np_layer[key + "_cases"] += 1
+            if pred == observed:
+                np_layer[key + "_predicted"] += 1
+            elif len(np_layer["disagreements"]) < 8:
+                np_layer["disagreements"].append(dict(case=case, library=list(observed), model=out[k]))
+            continue
+        if item[0] == "fl":
+            _, case, k, ge, le = item
+            fl["cases"] += 1
+            parts = out[k].split(" ")
+            if len(parts) == 2 and Fraction(parts[0]) == Fraction(ge) and Fraction(parts[1]) == Fraction(le):
+                fl["equal_to_soft64_division"] += 1
+            else:
+                # the library's float is not the correctly rounded k/n of the model's counts
+                run.mismatch(dict(case, op="ecdf_float"), [frac(Fraction(ge)), frac(Fraction(le))], out[k])
+            continue
+        _, case, i, j, ge, le, n = item
         try:
             mge, mle = val(out[i]), val(out[j])
         except Exception:
@@ -227,6 +362,10 @@ def run(run, rng, tier):
     _flush(run, drv, pending)
     _binned(run, rng, tier)
     _binned_dtypes(run, rng, tier)
+    _infinite_queries(run, rng, tier)
+    _sessions(run, rng, tier)
+    _sup_dist(run, rng, tier)
+    _min_max(run, rng, tier)
 
 
 def _binned(run, rng, tier):
@@ -324,6 +463,8 @@ def _typed_queries(val):
         if not (isinstance(q, float) or (isinstance(q, numpy.floating))) or numpy.isfinite(q):
             if _exact(q) == val or (val.denominator == 1 and _exact(q) == int(val)):
                 out.append(q)
+    # ... and as 0-d arrays of every numpy type (not "weak": a 0-d array keeps its dtype in comparisons)
+    out += [numpy.asarray(q) for q in out if isinstance(q, numpy.generic)]
     return out
 
 
@@ -352,7 +493,8 @@ def _dtype_cases(run, drv, pending, rng, tier):
                         if not tq:
                             continue
                         for v in (rng.sample(tq, min(2, len(tq))) if quick else tq):
-                            _check_case(run, drv, pending, arr, v, rng.random() < 0.25, f"dtype-{aname}")
+                            _check_case(run, drv, pending, arr, v, rng.random() < 0.25, f"dtype-{aname}",
+                                        layout=rng.choice(LAYOUTS) if rng.random() < 0.3 else None)
     # large random samples with heavy ties held in every dtype, queries as numpy scalars of random dtypes
     for _ in range(120 if quick else 1500):
         dtname = rng.choice(UINTS + SINTS + FLOATS)
@@ -373,7 +515,8 @@ def _dtype_cases(run, drv, pending, rng, tier):
         for q in rng.sample(cand, 3):
             tq = _typed_queries(q)
             if tq:
-                _check_case(run, drv, pending, arr, rng.choice(tq), rng.random() < 0.1, "random-dtype")
+                _check_case(run, drv, pending, arr, rng.choice(tq), rng.random() < 0.1, "random-dtype",
+                            layout=rng.choice(LAYOUTS) if rng.random() < 0.3 else None)
     run.extra["dtype_cases"] = run.evaluations - n0
 
 
@@ -434,8 +577,234 @@ def _binned_dtypes(run, rng, tier):
             run.mismatch(case, got, out[i])
 
 
+# ----------------------------------------------------------------------------- queries at +-infinity (oracle only)
+def _infinite_queries(run, rng, tier):
+    """v = +inf is above, v = -inf below every finite sample value: (0, 1) and (1, 0); the model has no infinities"""
+    from csep.utils import stats
+    for _ in range(60 if tier == "quick" else 600):
+        dt = numpy.dtype(rng.choice(UINTS + SINTS + FLOATS))
+        n = rng.choice([1, 2, 5, 40])
+        if dt.kind in "iu":
+            ii = numpy.iinfo(dt)
+            arr = numpy.array([rng.choice([ii.min, ii.max, 0, 1, ii.max // 2]) for _ in range(n)], dtype=dt)
+        else:
+            arr = numpy.array([rng.choice([0.0, -1.5, 2.25, float(numpy.finfo(dt).max), -float(numpy.finfo(dt).max)])
+                               for _ in range(n)], dtype=dt)
+        sign = rng.choice([1, -1])
+        v = rng.choice([float("inf"), numpy.float64("inf"), numpy.float32("inf"), numpy.float16("inf"),
+                        numpy.asarray(numpy.inf)]) * sign
+        case = dict(x=[str(t) for t in arr.tolist()], xdtype=dt.name, v="inf" if sign > 0 else "-inf", vtype=_vtype(v),
+                    tag="infinite-query")
+        run.case(case, None)
+        run.count("infinite-query")
+        want = (0.0, 1.0) if sign > 0 else (1.0, 0.0)
+        try:
+            with numpy.errstate(all="ignore"):
+                got = (stats.greater_equal_ecdf(arr, v), stats.less_equal_ecdf(arr, v))
+                q = stats.get_quantiles(arr, v)
+        except Exception as e:
+            run.oracle_failure(case, f"exception {type(e).__name__}: {e}")
+            continue
+        if tuple(map(float, got)) != want or tuple(map(float, q)) != want:
+            run.oracle_failure(case, f"(ge, le)={got!r} quantiles={q!r}, expected {want}")
+
+
+# ----------------------------------------------------------------------------- histories on ONE sample object
+def _run_session(run, case):
+    """one numpy array object is looked at, changed IN PLACE, looked at again, ...: every lookup must answer for the
+    contents the array has at that moment (the property is about the sample x handed over, not about an earlier one)"""
+    from csep.utils import stats
+    dt = numpy.dtype(case["xdtype"])
+    conv = (lambda t: int(Fraction(t))) if dt.kind in "iu" else (lambda t: float(Fraction(t)))
+    x = numpy.array([conv(t) for t in case["init"]], dtype=dt)
+    other = numpy.array([conv(t) for t in case["init"]][::-1], dtype=dt)
+    for k, st in enumerate(case["steps"]):
+        op = st["op"]
+        if op == "refill":
+            x[:] = numpy.array([conv(t) for t in st["vals"]], dtype=dt)
+        elif op == "set-one":
+            x[st["i"] % len(x)] = conv(st["vals"][0])
+        elif op == "double":
+            x *= 2
+        elif op == "sort-inplace":
+            x.sort()
+        elif op == "reverse":
+            x[:] = x[::-1].copy()
+        elif op == "fill-progressively":        # a preallocated buffer of simulations filled step by step
+            for i, t in enumerate(st["vals"][:len(x)]):
+                x[i] = conv(t)
+        elif op == "other-array":
+            stats.get_quantiles(other, conv(st["v"]))
+        v = conv(st["v"])
+        fx = [_exact(t) for t in (x.tolist() if dt.kind in "iu" else x)]
+        n = len(fx)
+        kge, kle = sum(1 for t in fx if t >= _exact(v)), sum(1 for t in fx if t <= _exact(v))
+        try:
+            how = st.get("call", "quantiles")
+            if how == "quantiles":
+                got = tuple(map(float, stats.get_quantiles(x, v)))
+            elif how == "separate":
+                got = (float(stats.greater_equal_ecdf(x, v)), float(stats.less_equal_ecdf(x, v)))
+            else:
+                b = stats.binned_ecdf(x, numpy.array([v], dtype=dt))
+                got = (float(stats.greater_equal_ecdf(x, v)), float(b[1][0]))
+        except Exception as e:
+            run.oracle_failure(case, f"step {k} ({op}): exception {type(e).__name__}: {e}")
+            return
+        if got != (kge / n, kle / n):
+            run.oracle_failure(case, f"step {k} (after {op}): (ge, le)={got!r} for the sample as it is now "
+                                     f"{[str(t) for t in fx][:12]} and v={v!r}; expected ({kge}/{n}, {kle}/{n})")
+            return
+
+
+def _sessions(run, rng, tier):
+    for _ in range(200 if tier == "quick" else 2000):
+        dt = numpy.dtype(rng.choice(["int64", "int64", "float64", "float64", "int32", "uint8", "float32", "int16", "uint64"]))
+        n = rng.choice([1, 2, 3, 5, 8, 40])
+        if dt.kind in "iu":
+            lo = 0 if dt.kind == "u" else -20
+            pool = [rng.randrange(lo, 60) for _ in range(rng.randint(1, 9))]
+            q = lambda: str(rng.choice(pool) + rng.choice([0, 0, 1, -1]) if dt.kind == "i" else max(0, rng.choice(pool) + rng.choice([0, 0, 1])))
+        else:
+            pool = [rng.choice([0.5, 1.25, -2.0, 3.75, 0.0]) + rng.randrange(0, 6) for _ in range(rng.randint(1, 9))]
+            q = lambda: str(Fraction(rng.choice(pool) + rng.choice([0, 0, 0.5, -0.25])))
+        val = lambda: str(Fraction(rng.choice(pool)))
+        steps = []
+        for _k in range(rng.randint(2, 6)):
+            op = rng.choice(["none", "refill", "refill", "set-one", "double", "sort-inplace", "reverse",
+                             "fill-progressively", "other-array"])
+            steps.append(dict(op=op, vals=[val() for _ in range(n)], i=rng.randrange(n), v=q(),
+                              call=rng.choice(["quantiles", "quantiles", "separate", "binned"])))
+        case = dict(tag="session", xdtype=dt.name, init=[val() for _ in range(n)], steps=steps)
+        run.case(dict(tag="session", xdtype=dt.name, n=n, ops=[st["op"] for st in steps]),
+                 ("session", dt.name, tuple(case["init"]), tuple((st["op"], tuple(st["vals"]), st["v"]) for st in steps)))
+        run.count("session")
+        for st in steps:
+            run.count("session-op:" + st["op"])
+        _run_session(run, case)
+
+
+# ----------------------------------------------------------------------------- sup_dist / sup_dist_na
+def _sup_dist(run, rng, tier):
+    """sup_dist_na(d1, d2) = sup over the pooled sample of |F1 - F2| with F_i the "at most" probability of sample i
+    (Ecdf.sup_dist_na_spec); sup_dist(cdf1, cdf2) = max |cdf2 - cdf1|"""
+    from csep.utils import stats
+    drv, pend = Driver(), []
+    bit = run.extra.setdefault("sup_dist_na", dict(cases=0, bitexact_with_soft64=0))
+    for it in range(250 if tier == "quick" else 2500):
+        kind = rng.choice(["int", "decimal", "float", "int"])
+        n1, n2 = rng.choice([1, 1, 2, 3, 7, 30]), rng.choice([1, 2, 3, 5, 11, 30])
+        if rng.random() < 0.06:
+            n1, n2 = rng.choice([100, 200]), rng.choice([150, 300])
+        if kind == "int":
+            pool = [rng.randrange(-4, 12) for _ in range(rng.randint(1, 8))]
+        elif kind == "decimal":
+            pool = [round(rng.uniform(0, 3), 1) for _ in range(rng.randint(1, 8))]
+        else:
+            pool = [rng.uniform(-5, 5) for _ in range(rng.randint(1, 30))]
+        d1 = [rng.choice(pool) for _ in range(n1)]
+        d2 = [rng.choice(pool + [max(pool) + 1, min(pool) - 1]) for _ in range(n2)]
+        if rng.random() < 0.1:
+            d2 = list(d1)                                  # identical samples: distance 0
+            n2 = n1
+        f1, f2 = [Fraction(t) for t in d1], [Fraction(t) for t in d2]
+        case = dict(d1=[str(t) for t in f1], d2=[str(t) for t in f2], kind=kind, tag="sup_dist_na")
+        form = rng.choice(["list", "array", "mixed"])
+        a1 = d1 if form == "list" else numpy.array(d1)
+        a2 = numpy.array(d2) if form == "array" else d2
+        run.case(case, ("supna", tuple(f1), tuple(f2)) if len(set(f1) & set(f2)) or len(set(f1)) < n1 else None)
+        run.count("sup_dist_na")
+        try:
+            got = float(stats.sup_dist_na(a1, a2))
+        except Exception as e:
+            run.oracle_failure(case, f"sup_dist_na raised {type(e).__name__}: {e}")
+            continue
+        s1, s2 = sorted(f1), sorted(f2)
+        want = max(abs(Fraction(bisect.bisect_right(s1, p), n1) - Fraction(bisect.bisect_right(s2, p), n2))
+                   for p in set(f1 + f2))
+        if abs(Fraction(got) - want) > Fraction(1, 10 ** 15):
+            run.oracle_failure(case, f"sup_dist_na={got!r}, sup over the pooled sample of |F1-F2| = {float(want)!r}")
+            continue
+        pend.append((case, drv.ask(f"sup_dist_na {flist(f1)} {flist(f2)}"), got, want))
+        # sup_dist on two aligned ecdf arrays (the values binned_ecdf returns)
+        if it % 3 == 0:
+            pts = sorted(set(f1 + f2))
+            c1 = [sum(1 for t in f1 if t <= p) / n1 for p in pts]
+            c2 = [sum(1 for t in f2 if t <= p) / n2 for p in pts]
+            sc = dict(cdf1=[repr(t) for t in c1], cdf2=[repr(t) for t in c2], tag="sup_dist")
+            run.case(sc, None)
+            try:
+                g = float(stats.sup_dist(numpy.array(c1), numpy.array(c2)))
+            except Exception as e:
+                run.oracle_failure(sc, f"sup_dist raised {type(e).__name__}: {e}")
+                continue
+            w = max(abs(b - a) for a, b in zip(c1, c2))
+            if g != w:
+                run.oracle_failure(sc, f"sup_dist={g!r}, max|cdf2-cdf1|={w!r}")
+                continue
+            pend.append((sc, drv.ask(f"sup_dist {flist(Fraction(t) for t in c1)} {flist(Fraction(t) for t in c2)}"), g, None))
+    out = drv.run()
+    for case, i, got, want in pend:
+        if want is None:
+            if Fraction(out[i]) != Fraction(got):
+                run.mismatch(case, frac(Fraction(got)), out[i])
+            continue
+        ex, fl = out[i].split(" ")
+        bit["cases"] += 1
+        bit["bitexact_with_soft64"] += int(Fraction(fl) == Fraction(got))
+        if Fraction(ex) != want or abs(Fraction(got) - Fraction(ex)) > Fraction(1, 10 ** 15):
+            run.mismatch(case, frac(Fraction(got)), out[i])
+
+
+# ----------------------------------------------------------------------------- min_or_none / max_or_none
+def _min_max(run, rng, tier):
+    from csep.utils import stats
+    drv, pend = Driver(), []
+    for _ in range(150 if tier == "quick" else 1500):
+        dt = numpy.dtype(rng.choice(UINTS + SINTS + FLOATS))
+        n = rng.choice([0, 0, 1, 2, 3, 9, 100])
+        if dt.kind in "iu":
+            ii = numpy.iinfo(dt)
+            base = rng.choice([0, ii.min, ii.max - 20] + ([2 ** 53 - 3] if dt.itemsize == 8 else []))
+            vals = [min(ii.max, max(ii.min, base + rng.randrange(0, 20))) for _ in range(n)]
+        else:
+            vals = [float(dt.type(rng.choice([0.1, -0.3, 1.0, 2.5, rng.uniform(-9, 9)]))) for _ in range(n)]
+        arr = numpy.array(vals, dtype=dt)
+        arg = arr if rng.random() < 0.7 else arr.tolist()
+        fx = [_exact(t) for t in (arr.tolist() if dt.kind in "iu" else arr)]
+        case = dict(x=[str(t) for t in fx], xdtype=dt.name, as_list=not isinstance(arg, numpy.ndarray), tag="min_max")
+        run.case(case, ("minmax", dt.name, tuple(fx)) if len(set(fx)) < len(fx) else None)
+        run.count("min_max" if n else "min_max:empty")
+        try:
+            lo, hi = stats.min_or_none(arg), stats.max_or_none(arg)
+        except Exception as e:
+            run.oracle_failure(case, f"exception {type(e).__name__}: {e}")
+            continue
+        if n == 0:
+            if lo is not None or hi is not None:
+                run.oracle_failure(case, f"empty input must give None, got {lo!r} {hi!r}")
+            continue
+        if lo is None or hi is None or _exact(lo) != min(fx) or _exact(hi) != max(fx):
+            run.oracle_failure(case, f"min/max = {lo!r}/{hi!r}, expected {min(fx)}/{max(fx)}")
+            continue
+        # the extremes have probability one (Ecdf.extremes_have_probability_one)
+        if stats.greater_equal_ecdf(arr, lo) != 1.0 or stats.less_equal_ecdf(arr, hi) != 1.0:
+            run.oracle_failure(case, "P(X >= min) or P(X <= max) is not 1")
+        pend.append((case, drv.ask(f"min_max {flist(Fraction(t) for t in fx)}"), Fraction(_exact(lo)), Fraction(_exact(hi))))
+    out = drv.run()
+    for case, i, lo, hi in pend:
+        a, b = out[i].split(" ")
+        if a == "none" or Fraction(a) != lo or Fraction(b) != hi:
+            run.mismatch(case, [str(lo), str(hi)], out[i])
+
+
 def replay(run, payload):
     case = payload["case"]
+    if case.get("tag") in ("sup_dist_na", "sup_dist", "min_max", "infinite-query"):
+        return _replay_extra(run, case)
+    if case.get("tag") == "session":
+        run.case(case, None)
+        return _run_session(run, case)
     if case.get("tag") == "binned-dtype":
         from csep.utils import stats
         dx, dq = numpy.dtype(case["xdtype"]), numpy.dtype(case["vdtype"])
@@ -457,7 +826,7 @@ def replay(run, payload):
             x = numpy.array([int(t) if dx.kind in "iu" else float(t) for t in fx], dtype=dx)
         v = _mk_query(case["vtype"], case["v"])
         drv, pending = Driver(), []
-        _check_case(run, drv, pending, x, v, case.get("as_list", False), "replay")
+        _check_case(run, drv, pending, x, v, case.get("as_list", False), "replay", layout=case.get("layout"))
         _flush(run, drv, pending)
         return
     if case.get("tag") == "binned" or "vals" in case:
@@ -484,3 +853,47 @@ def replay(run, payload):
     drv, pending = Driver(), []
     _check_case(run, drv, pending, x, v, case.get("as_list", False), "replay")
     _flush(run, drv, pending)
+
+
+def _replay_extra(run, case):
+    from csep.utils import stats
+    run.case(case, None)
+    tag = case["tag"]
+    if tag == "sup_dist_na":
+        f1, f2 = [Fraction(t) for t in case["d1"]], [Fraction(t) for t in case["d2"]]
+        conv = (lambda t: int(t)) if case.get("kind") == "int" else float
+        got = float(stats.sup_dist_na([conv(t) for t in f1], numpy.array([conv(t) for t in f2])))
+        want = max(abs(Fraction(sum(1 for t in f1 if t <= p), len(f1)) - Fraction(sum(1 for t in f2 if t <= p), len(f2)))
+                   for p in f1 + f2)
+        if abs(Fraction(got) - want) > Fraction(1, 10 ** 15):
+            run.oracle_failure(case, f"sup_dist_na={got!r}, sup over the pooled sample of |F1-F2| = {float(want)!r}")
+    elif tag == "sup_dist":
+        c1, c2 = [float(t) for t in case["cdf1"]], [float(t) for t in case["cdf2"]]
+        g = float(stats.sup_dist(numpy.array(c1), numpy.array(c2)))
+        w = max(abs(b - a) for a, b in zip(c1, c2))
+        if g != w:
+            run.oracle_failure(case, f"sup_dist={g!r}, max|cdf2-cdf1|={w!r}")
+    elif tag == "min_max":
+        dt = numpy.dtype(case["xdtype"])
+        fx = [Fraction(t) for t in case["x"]]
+        arr = numpy.array([int(t) if dt.kind in "iu" else float(t) for t in fx], dtype=dt)
+        arg = arr.tolist() if case.get("as_list") else arr
+        lo, hi = stats.min_or_none(arg), stats.max_or_none(arg)
+        if not fx:
+            if lo is not None or hi is not None:
+                run.oracle_failure(case, f"empty input must give None, got {lo!r} {hi!r}")
+        elif lo is None or hi is None or _exact(lo) != min(fx) or _exact(hi) != max(fx):
+            run.oracle_failure(case, f"min/max = {lo!r}/{hi!r}, expected {min(fx)}/{max(fx)}")
+    else:
+        dt = numpy.dtype(case["xdtype"])
+        arr = numpy.array([int(t) if dt.kind in "iu" else float(t) for t in case["x"]], dtype=dt)
+        sign = 1 if case["v"] == "inf" else -1
+        base = case["vtype"].replace("@0d", "")
+        v = sign * (float("inf") if base == "float" else numpy.dtype(base).type("inf"))
+        if case["vtype"].endswith("@0d"):
+            v = numpy.asarray(v)
+        want = (0.0, 1.0) if sign > 0 else (1.0, 0.0)
+        with numpy.errstate(all="ignore"):
+            got = (stats.greater_equal_ecdf(arr, v), stats.less_equal_ecdf(arr, v))
+        if tuple(map(float, got)) != want:
+            run.oracle_failure(case, f"(ge, le)={got!r}, expected {want}")
